@@ -467,18 +467,34 @@ pub struct GroupRun {
     pub cmdline: String,
 }
 
-/// Runs `fclones group` with JSON output on the given roots (relative to cwd = tree root).
-pub fn run_group(cd: &CaseDir, opts: &GOpts, roots: &[OsString], format: &str, extra: &[OsString]) -> GroupRun {
+/// Runs `fclones group` on the given roots (relative to cwd = tree root), as arguments or through
+/// `--stdin`, with extra environment variables for the child.
+pub fn run_group_env(cd: &CaseDir, opts: &GOpts, roots: &[OsString], format: &str, extra: &[OsString], stdin: bool, envs: &[(String, String)]) -> GroupRun {
     let mut r = Run::fclones(cd).arg("group").args(opts.args()).args(extra);
+    if stdin {
+        r = r.arg("--stdin");
+    }
     if format != "default" {
         r = r.arg("-f").arg(format);
     }
-    r = r.args(roots);
+    if !stdin {
+        r = r.args(roots);
+    }
     if let Some(d) = opts.disk_env() {
         r = r.env("FCLONES_VERIF_DISK_KIND", d);
     }
-    let cmdline = r.cmdline();
-    let out = r.run();
+    for (k, v) in envs {
+        r = r.env(k, v);
+    }
+    let envs_s: String = envs.iter().map(|(k, v)| format!("{}={} ", k, v)).collect();
+    let (out, cmdline) = if stdin {
+        let input: Vec<u8> = roots.iter().flat_map(|x| [crate::run::os_bytes(x), b"\n".to_vec()].concat()).collect();
+        let cmdline = format!("printf '%s\\n' {} | {}{}", roots.iter().map(|x| x.to_string_lossy().to_string()).collect::<Vec<_>>().join(" "), envs_s, r.cmdline());
+        (r.stdin(input).run(), cmdline)
+    } else {
+        let cmdline = format!("{}{}", envs_s, r.cmdline());
+        (r.run(), cmdline)
+    };
     let report = if out.ok() {
         match format {
             "json" => parse_json(&out.stdout),
@@ -491,28 +507,14 @@ pub fn run_group(cd: &CaseDir, opts: &GOpts, roots: &[OsString], format: &str, e
     GroupRun { out, report, cmdline }
 }
 
+/// Runs `fclones group` with the input paths given as arguments.
+pub fn run_group(cd: &CaseDir, opts: &GOpts, roots: &[OsString], format: &str, extra: &[OsString]) -> GroupRun {
+    run_group_env(cd, opts, roots, format, extra, false, &[])
+}
+
 /// Same as `run_group`, but the input paths are fed through `--stdin` (one per line) instead of arguments.
 pub fn run_group_stdin(cd: &CaseDir, opts: &GOpts, roots: &[OsString], format: &str, extra: &[OsString]) -> GroupRun {
-    let mut r = Run::fclones(cd).arg("group").args(opts.args()).args(extra).arg("--stdin");
-    if format != "default" {
-        r = r.arg("-f").arg(format);
-    }
-    if let Some(d) = opts.disk_env() {
-        r = r.env("FCLONES_VERIF_DISK_KIND", d);
-    }
-    let input: Vec<u8> = roots.iter().flat_map(|x| [crate::run::os_bytes(x), b"\n".to_vec()].concat()).collect();
-    let cmdline = format!("printf '%s\\n' {} | {}", roots.iter().map(|x| x.to_string_lossy().to_string()).collect::<Vec<_>>().join(" "), r.cmdline());
-    let out = r.stdin(input).run();
-    let report = if out.ok() {
-        match format {
-            "json" => parse_json(&out.stdout),
-            "default" => parse_text(&out.stdout),
-            _ => Err("format not parsed here".into()),
-        }
-    } else {
-        Err(format!("exit {:?}", out.code))
-    };
-    GroupRun { out, report, cmdline }
+    run_group_env(cd, opts, roots, format, extra, true, &[])
 }
 
 pub fn root_args(n: usize) -> Vec<OsString> {
